@@ -1,6 +1,6 @@
 #!/bin/bash
 # copy behaviour-preserving changes delivered by sub-agents (/tmp/wr/cXX/BENIGN/<id>/) into /verif/benign/<id>/
-for d in /tmp/wr/c*/BENIGN/C*-b* /tmp/wr/c*_scratch/BENIGN/C*-b*; do
+for d in /tmp/wr2/c*/BENIGN/C*-b* /tmp/wr2/c*_scratch/BENIGN/C*-b*; do
   [ -f $d/patch.diff ] || continue
   n=$(basename $d); [ -f /verif/benign/$n/patch.orig.diff ] && continue   # rebased by hand: keep
   mkdir -p /verif/benign/$n
